@@ -189,6 +189,10 @@ def reduce_hint_pep484604_union(
     # this union.
     hint_childs_new_list: ListHints = []
 
+    # True only if the code type-checking this union is cacheable, defaulting to
+    # true until a child hint reduced below is discovered to be uncacheable.
+    is_check_expr_cacheable = True
+
     # ....................{ KEYWORDS                       }....................
     # Instruct the higher-level reduce_hint_child() reducer called below to
     # preserve ignorable hints reduced to a unique "HintSane" object *NOT* equal
@@ -347,6 +351,16 @@ def reduce_hint_pep484604_union(
             # reducing this union child hint. As detailed above, this is fine.
             else:
                 hint_childs_new_list.append(hint_child_sane.hint)
+
+                # If the code type-checking this child hint is uncacheable
+                # (e.g., due to this child hint being the PEP 673-compliant
+                # "typing.Self" hint, whose reduction is contextually dependent
+                # on the type currently being decorated), the code type-checking
+                # this union is uncacheable as well. Since reducing this
+                # metadata to this child hint above discards this fact, record
+                # this fact now.
+                is_check_expr_cacheable &= (
+                    hint_child_sane.is_check_expr_cacheable)
         # Else, *NO* metadata encapsulates the reduction of this child hint.
         #
         # In this case, preserve this child hint as is.
@@ -374,5 +388,12 @@ def reduce_hint_pep484604_union(
         make_hint_pep484604_union(hint_childs_new)
     )
 
-    # Return this possibly reduced union.
-    return hint
+    # Return either...
+    return (
+        # If the code type-checking this union is cacheable, this possibly
+        # reduced union;
+        hint
+        if is_check_expr_cacheable else
+        # Else, metadata recording this code to be uncacheable.
+        HintSane(hint=hint, is_check_expr_cacheable=False)
+    )
